@@ -1872,6 +1872,15 @@ func (bc *Blockchain) AddBlock(block *block.Block) error {
 		if !block.MerkleRoot.Equals(merkle) {
 			return errors.New("invalid block: MerkleRoot mismatch")
 		}
+		// Merkle tree duplicates the last hash of an odd level, so the root
+		// alone does not exclude a repeated transaction.
+		seen := make(map[util.Uint256]struct{}, len(block.Transactions))
+		for _, tx := range block.Transactions {
+			if _, ok := seen[tx.Hash()]; ok {
+				return fmt.Errorf("invalid block: duplicate transaction %s", tx.Hash().StringLE())
+			}
+			seen[tx.Hash()] = struct{}{}
+		}
 		mp = mempool.New(len(block.Transactions), false, nil)
 		var added int
 		for _, tx := range block.Transactions {
